@@ -35,6 +35,24 @@ class Prop:
                     for order in (two, two[::-1]):
                         ops.append('decode 0 ' + ' '.join(impl.hx(l) for l in order))
                         meta.append((cname, bits, 'swap' if order is not two else 'plain-cut', order, ref))
+        # a complete one-sentence message that carries a sequence id, with fill bits, for the layouts that end in a
+        # variable-length field (the carrier must not leak into the last field)
+        for cname, cls in sorted(gen.concrete_classes().items()):
+            name, off, w, d_type, signed, varlen = gen.field_offsets(cls)[-1]
+            if not varlen:
+                continue
+            unit = 6 if d_type is str else 8
+            for k in (1, 2, 3, 5, 7):
+                if k * unit > w or (off + k * unit + 5) // 6 > 200:
+                    continue
+                bits = gen.payload_bits(rng, cname)[:off + k * unit]
+                if d_type is str:
+                    bits = bits[:off] + ''.join(gen.bits_of_int(rng.randint(1, 31), 6) for _ in range(k))
+                ref = impl.step('frombits %s' % bits)
+                for seq in ('', '0', str(rng.randint(1, 9))):
+                    lines = gen.render(bits, seq=seq, chan=rng.choice('AB'))
+                    ops.append('decode 0 ' + ' '.join(impl.hx(l) for l in lines))
+                    meta.append((cname, bits, 'one sentence, seq=%r, fill=%d' % (seq, (6 - len(bits) % 6) % 6), lines, ref))
         outs = ctx.corr(ops, impl.step, 'decode', nontrivial=lambda l, o: l.count(' ') > 2 or '5c' in l[:20])
         for (cname, bits, label, lines, ref), o in zip(meta, outs):
             ctx.count('class:' + cname)
